@@ -111,3 +111,27 @@ package sync
 //
 //@ func NewMap() (m *Map)
 //@   ensures [fresh] m != nil && fresh(m)
+//
+// Range2 / Range: the callback only ever sees entries of the map - a key that is present with the value
+// stored under it at that instant (Range2: inside the one critical section that spans the whole
+// iteration; Range: inside the critical section in which the entry was fetched, the lock is released
+// while the callback runs); the map itself is not modified. (That an iteration yields each key at most
+// once is part of the assumed semantics of Go's map iteration.)
+//
+//@ func (*Map) Range2(f func(key K, value V) bool)
+//@   requires m != nil
+//@   cs-pure mapUnchanged(m.data)
+//@   atomic [read-only] mapUnchanged(m.data)
+//@   loop 0:
+//@     invariant [seen-present] forall j int :: {visited(j)} visited(j) ==> present(m.data, j)
+//@   param f:
+//@     requires [entry-of-the-map] present(m.data, key) && value == m.data[key]
+//
+//@ func (*Map) Range(f func(key K, value V) bool)
+//@   requires m != nil
+//@   cs-pure mapUnchanged(m.data)
+//@   atomic [read-only] mapUnchanged(m.data)
+//@   loop 0:
+//@     invariant [locked-at-head] true
+//@   param f:
+//@     requires [entry-of-the-map] present(m.data, key) && value == m.data[key]
